@@ -92,9 +92,9 @@ end
 
 /-! ### what `Coverage` accepts, `desugar` reads -/
 
-/-- all three local conditions at once -/
+/-- both local conditions at once -/
 def good (n : Node) : Bool :=
-  stmtCtor n && noNestedUnaryAt n && noIncDecOfConstAt n
+  stmtCtor n && noIncDecOfConstAt n
 
 theorem allowOperand_elim {n : Node} (h : allowOperand n = true) :
     (∃ y, n = .id y) ∨ ∃ t v, n = .const t v := by
@@ -148,14 +148,69 @@ theorem covN_rmCast (r : Node) (a : Cov) (h : covN r = .ok a) :
     exact covN_rmCast e a' ha'
   | _ => exact ⟨a, h, rfl⟩
 
+/-- what `Coverage.UnaryOp` lets through as a cast-free operand, seen from outside: an
+    identifier, a constant, or a unary operation that is not `++`/`--` -/
+def operandShape : Node → Bool
+  | .id _ => true
+  | .const .. => true
+  | .unop op _ => !Gen.incDec.contains op
+  | _ => false
+
+theorem hasSideEffect_rmCast (e : Node) : hasSideEffect e.rmCast = hasSideEffect e := by
+  cases e with
+  | cast e' =>
+    simp only [Node.rmCast, hasSideEffect]
+    exact hasSideEffect_rmCast e'
+  | _ => rfl
+
+theorem incDec_test (op : String) :
+    (op == "++" || op == "--" || op == "p++" || op == "p--") = Gen.incDec.contains op := by
+  simp only [Gen.incDec, List.contains_cons, List.contains_nil, Bool.or_false, Bool.or_assoc]
+
+theorem operandShape_of_cond {op : String} {m : Node}
+    (h : (m.isId || m.isConst || nestedOk op m) = true) : operandShape m = true := by
+  cases m
+  case id => rfl
+  case const => rfl
+  case unop op' e =>
+    simp only [Node.isId, Node.isConst, nestedOk, Bool.false_or, Bool.and_eq_true] at h
+    exact h.2
+  all_goals cases h
+
+/-- an operand accepted under a unary operator has no side effect unless it is (a cast of) an
+    increment / decrement -/
+theorem noSE_of_covN (n : Node) :
+    ∀ c, covN n = .ok c → c.up = 0 → operandShape n.rmCast = true → hasSideEffect n = false := by
+  intro c h hu hs
+  cases n with
+  | id => simp only [hasSideEffect]
+  | const => simp only [hasSideEffect]
+  | cast e =>
+    simp only [covN_cast, bind_eq_ok, Except.ok.injEq] at h
+    obtain ⟨a, ha, rfl⟩ := h
+    simp only [hasSideEffect]
+    exact noSE_of_covN e a ha hu (by simpa only [Node.rmCast] using hs)
+  | unop op e =>
+    rw [covN_unop] at h
+    split at h
+    · rename_i hc
+      simp only [bind_eq_ok, Except.ok.injEq] at h
+      obtain ⟨a, ha, rfl⟩ := h
+      simp only [Bool.and_eq_true] at hc
+      have hse := noSE_of_covN e a ha hu (operandShape_of_cond hc.2)
+      have hid : Gen.incDec.contains op = false := by
+        simpa only [Node.rmCast, operandShape, Bool.not_eq_true'] using hs
+      simp only [hasSideEffect, incDec_test, hid, hse, Bool.or_self]
+    · cases h; cases hu
+  | _ => cases hs
+
 theorem desugar_assign_isSome (x : String) (r : Node) (a : Cov) (ha : covN r = .ok a)
     (hu : a.up = 0) (hal : allowRhs r.rmCast = true)
-    (h1 : noNestedUnaryAt (.assign "=" (.id x) r) = true)
     (h3 : noIncDecOfConstAt (.assign "=" (.id x) r) = true) :
     (desugar (.assign "=" (.id x) r)).isSome = true := by
   obtain ⟨a', ha', hu'⟩ := covN_rmCast r a ha
   rw [hu] at hu'
-  simp only [noNestedUnaryAt, noIncDecOfConstAt, rhsUnop?] at h1 h3
+  simp only [noIncDecOfConstAt, rhsUnop?] at h3
   simp only [desugar]
   generalize r.rmCast = e at *
   cases e
@@ -174,9 +229,12 @@ theorem desugar_assign_isSome (x : String) (r : Node) (a : Cov) (ha : covN r = .
     rename_i hc
     simp only [Bool.and_eq_true] at hc
     obtain ⟨hop, h2⟩ := hc
-    simp only at h1 h3 ⊢
+    simp only [bind_eq_ok, Except.ok.injEq] at ha'
+    obtain ⟨ae, hae, rfl⟩ := ha'
+    simp only at h3 ⊢
     by_cases hns : (op == "!" || op == "sizeof") = true
-    · simp only [hns, if_true]; rfl
+    · have hse := noSE_of_covN e ae hae hu' (operandShape_of_cond h2)
+      simp only [hns, if_true, hse]; rfl
     · simp only [hns]
       generalize e.rmCast = e' at *
       cases e'
@@ -187,12 +245,14 @@ theorem desugar_assign_isSome (x : String) (r : Node) (a : Cov) (ha : covN r = .
         simp only [Node.isConst, Bool.and_true] at h3
         rcases uOps_cases hop with rfl | rfl | rfl | rfl | rfl | rfl | rfl | rfl <;>
           first | rfl | (exfalso; revert hns; decide) | (exfalso; revert h3; decide)
-      case unop => cases h1
+      case unop =>
+        simp only [Node.isId, Node.isConst, nestedOk, Bool.false_or, Bool.and_eq_true] at h2
+        exact absurd h2.1 hns
       all_goals cases h2
   all_goals cases hal
 
 theorem good_elim {n : Node} (h : good n = true) :
-    stmtCtor n = true ∧ noNestedUnaryAt n = true ∧ noIncDecOfConstAt n = true := by
+    stmtCtor n = true ∧ noIncDecOfConstAt n = true := by
   simpa only [good, Bool.and_eq_true, and_assoc] using h
 
 mutual
@@ -237,13 +297,23 @@ theorem covN_desugar : (n : Node) → ∀ c, covN n = .ok c → c.up = 0 → c.i
     subst h
     cases ty <;> cases init <;> first | (simp only [desugar]; rfl) | cases hu
   | .unop op e => by
-    intro c _ _ _ _
-    simp only [desugar]
-    split
-    · split
-      · rfl
-      · split <;> rfl
-    · rfl
+    intro c h hu _ _
+    rw [covN_unop] at h
+    split at h
+    · rename_i hc
+      simp only [bind_eq_ok, Except.ok.injEq] at h
+      obtain ⟨a, ha, rfl⟩ := h
+      simp only [Bool.and_eq_true] at hc
+      have hse : hasSideEffect e.rmCast = false := by
+        rw [hasSideEffect_rmCast]
+        exact noSE_of_covN e a ha hu (operandShape_of_cond hc.2)
+      simp only [desugar]
+      split
+      · split
+        · rfl
+        · split <;> rfl
+      · simp only [hse]; rfl
+    · cases h; cases hu
   | .assign op l r => by
     intro c h hu hi hg
     rw [covN_assign] at h
@@ -255,9 +325,9 @@ theorem covN_desugar : (n : Node) → ∀ c, covN n = .ok c → c.up = 0 → c.i
       simp only [Bool.not_eq_true, Bool.not_eq_false', Bool.and_eq_true, beq_iff_eq] at hc
       obtain ⟨⟨rfl, hl⟩, hal⟩ := hc
       simp only [stmtAll] at hg
-      obtain ⟨_, h1, h3⟩ := good_elim hg
+      obtain ⟨_, h3⟩ := good_elim hg
       cases l with
-      | id x => exact desugar_assign_isSome x r a ha hu hal h1 h3
+      | id x => exact desugar_assign_isSome x r a ha hu hal h3
       | _ => cases hl
   | .cast e => by
     intro c h hu hi hg
@@ -410,10 +480,9 @@ theorem stmtAllO_and (p q : Node → Bool) : (o : Option Node) →
 end
 
 theorem stmtAll_good (n : Node) (h0 : stmtAll stmtCtor n = true)
-    (h1 : stmtAll noNestedUnaryAt n = true)
     (h3 : stmtAll noIncDecOfConstAt n = true) : stmtAll good n = true := by
-  have : good = fun n => (stmtCtor n && noNestedUnaryAt n) && noIncDecOfConstAt n := rfl
-  rw [this, stmtAll_and, stmtAll_and, h0, h1, h3]
+  have : good = fun n => stmtCtor n && noIncDecOfConstAt n := rfl
+  rw [this, stmtAll_and, h0, h3]
   rfl
 
 theorem isFunc_elim {f : Node} (h : f.isFunc = true) : ∃ d b, f = .funcDef d b := by
@@ -422,16 +491,16 @@ theorem isFunc_elim {f : Node} (h : f.isFunc = true) : ∃ d b, f = .funcDef d b
   all_goals cases h
 
 /-- (C05) If the syntax check reports full support, every statement is readable by `desugar`,
-    outside two explicitly excluded shapes of `x = op e` and for trees whose statement
+    outside one explicitly excluded shape of `x = op e` (`x = ++c`) and for trees whose statement
     positions hold statements or expressions. -/
 theorem full_implies_modellable_partial (f : Node) (m : Node) (hf : f.isFunc = true)
-    (h : coverage f = .ok (0, m)) (hnu : NoNestedUnary f)
+    (h : coverage f = .ok (0, m))
     (hid : NoIncDecOfConst f) (hs : StmtShaped f) : Spec.unmodellable f = [] := by
   obtain ⟨d, b, rfl⟩ := isFunc_elim hf
   obtain ⟨c, hc, hu, hi, _⟩ := coverage_inv _ m 0 h
-  simp only [NoNestedUnary, NoIncDecOfConst, stmtAll, Bool.and_eq_true] at hnu hid
+  simp only [NoIncDecOfConst, stmtAll, Bool.and_eq_true] at hid
   simp only [StmtShaped] at hs
-  have hg := stmtAll_good b hs hnu.2 hid.2
+  have hg := stmtAll_good b hs hid.2
   have key : ∃ cb, covN b = .ok cb ∧ cb.up = 0 ∧ cb.inner = 0 := by
     by_cases hd : ∃ nm a i, d = .decl nm (.funcDecl (some a)) i
     · obtain ⟨nm, a, i, rfl⟩ := hd
